@@ -8,10 +8,17 @@ RULE = ("operation sequences (set_field, e[k]=v, pop, del e[k]; then a probe blo
         "and 5 on sub-alphabets (thorough) from several start entries, all interleavings of all seven operations to "
         "depth 3 / 4, random interleavings up to depth 30 from constructed and parsed entries (some with duplicate or "
         "reserved keys: model comparison only); equality: every single-attribute perturbation, class change, "
-        "copy and deepcopy of parsed and constructed blocks and of fields. distinct = distinct (start entry, operation "
-        "list) or (block, perturbation); non-trivial = at least one call replaces, removes or misses an existing key, "
-        "or the pair differs in exactly one attribute / is a copy")
+        "copy and deepcopy of parsed and constructed blocks and of fields; several entries holding the same Field objects "
+        "(twin built from list(e.fields), a Field placed in two entries, a Field moved over with other.set_field(e.get(k))): "
+        "all mutator sequences to depth 2 / 3 over both entries from five sharing set-ups and random programs to depth 25, "
+        "every entry compared with its own reference dict after every step, and every Field object ever stored or handed "
+        "out keeps the content it had (a dict does not alter the objects stored in it). distinct = distinct (start "
+        "entry, operation list) or (block, perturbation); non-trivial = at least one call replaces, removes or misses an "
+        "existing key (several entries: a key whose Field object is also held by another entry), or the pair differs in "
+        "exactly one attribute / is a copy")
 TRUSTED = ["field identity is observed through unique start_line tags given to every Field the harness creates",
+           "the several-entries streams have no counterpart in the Coq model (the model has no object identity across "
+           "entries): they are judged by the Python oracle alone",
            "values containing dicts or foreign objects are outside the executable equality model (skipped for the model "
            "comparison, still checked by the Python oracle)"]
 ASSUMPTIONS = ["str keys; CPython dict preserves insertion order (the reference mapping of the oracle is a dict)"]
@@ -69,6 +76,14 @@ def generate(rng, tier):
     cases = []
     quick = tier == "quick"
     mut16 = [(c, k) for c in MUTATORS for k in POOL]
+    # 0. several entries holding the same Field objects: all mutator sequences over both entries (shortest first)
+    mkeys = POOL if quick else ["a", "A", "b"]
+    alpha = [(t, c, k) for t in (0, 1) for c in MUTATORS for k in mkeys]
+    for d in range(1, (2 if quick else 3) + 1):
+        for name, ents, setup in SHARED_SETUPS:
+            for combo in itertools.product(alpha, repeat=d):
+                steps = [["op", t, mk_op(c, k, i)] for i, (t, c, k) in enumerate(combo)]
+                cases.append({"stream": "multi-exh", "input": {"multi": name, "entries": ents, "steps": setup + steps}})
     # 1. all mutator sequences, probes at the end
     for si, st in enumerate(START if not quick else START[1:]):
         for ops in seqs(mut16, 3 if quick else 4):
@@ -119,6 +134,70 @@ def generate(rng, tier):
         cases.append({"stream": "parsed", "input": {"bib": BIB, "index": rng.choice([0, 5]), "ops": ops + probe_ops(pool)}})
     # 5. equality
     cases += eq_cases(rng, tier)
+    # 6. random programs over several entries that hold the same Field objects
+    cases += multi_random(rng, tier)
+    return cases
+
+
+# ------------------------------------------------------------------ several entries holding the same Field objects
+# entry specs as in START; a field spec {"share": [i, j]} is the very Field object number j of (earlier) entry i.
+# steps: ["op", target, op] one of the seven operations on entries[target]; ["twin", src] a new entry built from
+# list(entries[src].fields) (equal, not identical, same Field objects); ["xfer", target, src, key]
+# entries[target].set_field(entries[src].get(key)) when the key is present in entries[src].
+SHARED_SETUPS = [
+    ("twin", [START[1]], [["twin", 0]]),
+    ("twin3", [START[2]], [["twin", 0]]),
+    ("same-field", [START[1], {"type": "misc", "key": "k9", "fields": [["ab", "p", 7], {"share": [0, 0]}, {"share": [0, 1]}]}], []),
+    ("xfer", [START[1], START[2]], [["xfer", 1, 0, "a"], ["xfer", 1, 0, "b"]]),
+    ("xfer-new", [START[2], START[0]], [["xfer", 1, 0, "A"], ["xfer", 1, 0, "ab"]]),
+]
+MULTI_PARSED_POOL = ["author", "Title", "title", "year", "a", "A", "ab"]
+
+
+def multi_random(rng, tier):
+    cases = []
+    quick = tier == "quick"
+    vals = ["s", "", {"int": 3}, {"list": ["x", "y"]}, None, {"bool": True}, "\u00df"]
+    for i in range(300 if quick else 10000):
+        parsed = i % 6 == 5
+        if parsed:
+            ne, pool = 2, MULTI_PARSED_POOL
+            inp = {"multi": "parsed", "bib": BIB, "indexes": [0, 5]}
+        else:
+            ne, pool = rng.randint(1, 3), POOL
+            ents, line = [], 0
+            for j in range(ne):
+                fs = []
+                for k in rng.sample(POOL, rng.randint(0, 4)):
+                    line += 1
+                    src = [(a, b) for a in range(j) for b, f in enumerate(ents[a]["_keys"]) if f == k]
+                    if src and rng.random() < 0.6:
+                        fs.append({"share": list(rng.choice(src))})
+                    else:
+                        fs.append([k, rng.choice(vals), line])
+                ents.append({"type": rng.choice(["article", "Book", ""]), "key": rng.choice(["k", "ID", "a"]), "fields": fs,
+                             "_keys": [f[0] if isinstance(f, list) else ents[f["share"][0]]["_keys"][f["share"][1]] for f in fs]})
+            for e in ents:
+                del e["_keys"]
+            inp = {"multi": "random", "entries": ents}
+        steps = []
+        for j in range(rng.randint(1, 25)):
+            p = rng.random()
+            if p < 0.12 and ne < 4:
+                steps.append(["twin", rng.randrange(ne)])
+                ne += 1
+            elif p < 0.32 and ne > 1:
+                t, s = rng.sample(range(ne), 2)
+                steps.append(["xfer", t, s, rng.choice(pool)])
+            else:
+                c = rng.choice([0, 0, 1, 1, 1, 2, 2, 3, 3, 4, 5, 6])
+                k = rng.choice(pool) if rng.random() < 0.95 else rng.choice(["zz", ""])
+                op = mk_op(c, k, j)
+                if c in (O_SETFIELD, O_SETITEM) and rng.random() < 0.3:
+                    op[2] = rng.choice(vals)
+                steps.append(["op", rng.randrange(ne), op])
+        inp["steps"] = steps
+        cases.append({"stream": "multi-parsed" if parsed else "multi-random", "input": inp})
     return cases
 
 
@@ -301,8 +380,10 @@ def impl_ops(case):
     ref = {}
     init_keys = [f.key for f in init]
     hyp = len(set(init_keys)) == len(init_keys) and not any(k in RESERVED for k in init_keys)
+    log = FieldLog()          # Field objects stored in / handed out by the entry keep their content (see FieldLog)
     for f in init:
         ref[f.key] = f
+        log.see(f, "that the entry started with")
     ok, detail = True, ""
     interesting = False
     sx_in = [20, enc.enc_block(e), sx_ops]
@@ -313,6 +394,7 @@ def impl_ops(case):
         exp = None           # ("none",) | ("obj", field) | ("newfield", k, v) | ("value", v) | ("bool", b) | ("exc", name)
         if code == O_SETFIELD:
             f = Field(k, unjv(op[2]), op[3])
+            log.see(f, "passed to set_field in call %d" % n)
             unmodelled |= not value_modelled(f.value)
             sx_ops.append([0, enc.enc_field(f)])
             r = implutil.guarded(lambda: e.set_field(f))
@@ -426,6 +508,12 @@ def impl_ops(case):
                 wi = [("ENTRYTYPE", etype), ("ID", ekey)] + [(f.key, f.value) for f in fs]
                 if len(its) != len(wi) or not all(a[0] == b[0] and a[1] is b[1] for a, b in zip(its, wi)):
                     ok, detail = False, where + "items() %r does not list the fields" % (its,)
+            if ok:
+                if r[0] == "ok" and isinstance(r[1], Field):
+                    log.see(r[1], "returned by call %d" % n)
+                msg = log.altered()
+                if msg:
+                    ok, detail = False, where + msg
     rec = {"sx_in": sx_in, "sx_out": implutil.r_ok(outs), "oracle": {"ok": ok, "detail": detail},
            "key": json.dumps(inp, sort_keys=True), "nontrivial": bool(interesting),
            "tags": ["ops", "hyp" if hyp else "outside-hypothesis"],
@@ -433,6 +521,213 @@ def impl_ops(case):
     if unmodelled:
         rec["skip"] = True
     return rec
+
+
+# ------------------------------------------------------------------ implementation + oracle: shared Field objects
+class FieldLog:
+    """Every Field object the harness has stored in an entry or received from one, with the content it had when first
+    seen.  The reference mappings of the oracle are dicts key -> Field object; no operation on a dict alters an object
+    stored in it (or stored earlier, or stored in another dict as well), so the content must stay what it was."""
+
+    def __init__(self):
+        self.seen = {}
+
+    def see(self, f, origin):
+        import copy
+        if id(f) not in self.seen:
+            self.seen[id(f)] = (f, f.key, copy.deepcopy(f.value), f.start_line, origin)
+
+    def content(self, f):
+        return self.seen[id(f)][1:4]
+
+    def intact(self, f):
+        _, k, v, ln, _ = self.seen[id(f)]
+        return type(f.key) is type(k) and f.key == k and same_value(f.value, v) and f.start_line == ln
+
+    def altered(self):
+        for f, k, v, ln, origin in self.seen.values():
+            if not self.intact(f):
+                return "the Field object %s was (%r, %r, line %r) and now reads (%r, %r, line %r)" % (
+                    origin, k, v, ln, f.key, f.value, f.start_line)
+        return None
+
+
+def entry_vs_dict(e, ref, log, etype, ekey, Field, absent):
+    """Everything entry e reports equals what its reference dict ref (key -> Field object) holds; None or a complaint."""
+    fs = e.fields
+    want = list(ref.values())
+    shown = [(f.key, f.value) if isinstance(f, Field) else f for f in fs]
+    held = [log.content(w)[:2] for w in want]
+    if len(fs) != len(want) or not all(f is w for f, w in zip(fs, want)):
+        return "fields are %r, the mapping holds %r" % (shown, held)
+    if not all(log.intact(f) for f in fs):
+        return "fields read %r, the mapping holds %r" % (shown, held)
+    fd = e.fields_dict
+    if list(fd.keys()) != list(ref.keys()) or not all(a is b for a, b in zip(fd.values(), want)):
+        return "fields_dict %r, the mapping holds %r" % ([(k, f.value) for k, f in fd.items()], held)
+    its = e.items()
+    wi = [("ENTRYTYPE", etype), ("ID", ekey)] + held
+    if len(its) != len(wi) or not all(type(a) is tuple and len(a) == 2 and a[0] == b[0] and same_value(a[1], b[1])
+                                      for a, b in zip(its, wi)):
+        return "items() %r, the mapping gives %r" % (its, wi)
+    for k, w in ref.items():
+        if e.get(k) is not w or e.get(k, 5) is not w:
+            return "get(%r) returned %r, the mapping holds %r" % (k, e.get(k), log.content(w))
+        if k not in e:
+            return "%r in entry is false, the mapping holds %r" % (k, log.content(w))
+        if not same_value(e[k], log.content(w)[1]):
+            return "[%r] is %r, the mapping holds %r" % (k, e[k], log.content(w))
+    for k in absent:
+        if k not in ref and (k in e or e.get(k) is not None or e.get(k, 5) != 5):
+            return "%r is reported present (get: %r), the mapping does not hold it" % (k, e.get(k))
+    if e["ENTRYTYPE"] != etype or e["ID"] != ekey:
+        return "ENTRYTYPE/ID lookups give %r/%r, the entry has %r/%r" % (e["ENTRYTYPE"], e["ID"], etype, ekey)
+    return None
+
+
+def impl_multi(case):
+    import implutil
+    from bibtexparser.model import Entry, Field
+    inp = case["input"]
+    log = FieldLog()
+    entries = []
+    if "bib" in inp:
+        blocks = parsed_blocks(inp["bib"])
+        for ix in inp["indexes"]:
+            e = blocks[ix % len(blocks)]
+            assert type(e) is Entry, "generator: parsed block %d is not an entry" % ix
+            entries.append(e)
+    else:
+        built = []
+        for st in inp["entries"]:
+            fs = [built[x["share"][0]][x["share"][1]] if isinstance(x, dict) else Field(x[0], unjv(x[1]), x[2]) for x in st["fields"]]
+            built.append(list(fs))
+            entries.append(Entry(st["type"], st["key"], fs, start_line=0, raw=None))
+    refs, heads = [], []
+    for i, e in enumerate(entries):
+        keys = [f.key for f in e.fields]
+        assert len(set(keys)) == len(keys) and not any(k in RESERVED for k in keys), "generator: start entry outside the hypothesis"
+        for f in e.fields:
+            log.see(f, "that entry %d started with" % i)
+        refs.append({f.key: f for f in e.fields})
+        heads.append((e.entry_type, e.key))
+    ok, detail = True, ""
+    shared_hit = False
+    absent = sorted(set(POOL + ["zz"] + [st[2][1] if st[0] == "op" else st[3] for st in inp["steps"] if st[0] != "twin"]))
+    tags = ["multi", "multi:" + inp["multi"]]
+
+    def fail(n, step, msg):
+        return False, "step %d %r of %r: %s" % (n, step, inp["steps"], msg)
+
+    def others_hold(t, k):
+        return k in refs[t] and any(refs[t][k] is w for j, r in enumerate(refs) if j != t for w in r.values())
+
+    for n, step in enumerate(inp["steps"]):
+        acted = None
+        if step[0] == "twin":
+            s = step[1] % len(entries)
+            src = entries[s]
+            entries.append(Entry(src.entry_type, src.key, list(src.fields), src.start_line, src.raw))
+            refs.append(dict(refs[s]))
+            heads.append(heads[s])
+        elif step[0] == "xfer":
+            t, s, k = step[1] % len(entries), step[2] % len(entries), step[3]
+            r = implutil.guarded(lambda: entries[s].get(k))
+            if r[0] == "exc" or r[1] is not refs[s].get(k):
+                ok, detail = fail(n, step, "entry %d: get(%r) gave %r, the mapping gives %r" % (s, k, r[-1], refs[s].get(k)))
+                break
+            if r[1] is not None and t != s:
+                acted = t
+                f = r[1]
+                shared_hit |= others_hold(t, k)
+                r = implutil.guarded(lambda: entries[t].set_field(f))
+                if r[0] == "exc" or r[1] is not None:
+                    ok, detail = fail(n, step, "entry %d: set_field gave %r" % (t, r[-1]))
+                    break
+                refs[t][k] = f
+        else:
+            t, op = step[1] % len(entries), step[2]
+            acted = t
+            e, ref = entries[t], refs[t]
+            code, k = op[0], op[1]
+            assert k not in RESERVED, "generator: reserved key"
+            if code in MUTATORS:
+                shared_hit |= others_hold(t, k)
+            if code == O_SETFIELD:
+                f = Field(k, unjv(op[2]), op[3])
+                log.see(f, "passed to set_field in step %d" % n)
+                r = implutil.guarded(lambda: e.set_field(f))
+                ref[k] = f
+                good = r[0] == "ok" and r[1] is None
+            elif code == O_SETITEM:
+                v = unjv(op[2])
+
+                def do_set():
+                    e[k] = v
+                r = implutil.guarded(do_set)
+                good = r[0] == "ok" and r[1] is None
+                if good:
+                    # the mapping now binds k (old position, or at the end) to a field (k, v); which object that is,
+                    # is the implementation's business - if it is one seen before, that one must not read differently now
+                    pos = list(ref).index(k) if k in ref else len(ref)
+                    fs = e.fields
+                    f = fs[pos] if pos < len(fs) else None
+                    if not (isinstance(f, Field) and f.key == k and same_value(f.value, v)):
+                        ok, detail = fail(n, step, "entry %d: position %d holds %r after the assignment" % (t, pos, f))
+                        break
+                    log.see(f, "created by the item assignment of step %d" % n)
+                    ref[k] = f
+            elif code == O_POP:
+                d = op[2]
+                dv = None if d is None else unjv(d["v"])
+                r = implutil.guarded((lambda: e.pop(k)) if d is None else (lambda: e.pop(k, dv)))
+                if k in ref:
+                    w = ref.pop(k)
+                    good = r[0] == "ok" and r[1] is w
+                else:
+                    good = r[0] == "ok" and same_value(r[1], dv)
+            elif code == O_DEL:
+                def do_del():
+                    del e[k]
+                r = implutil.guarded(do_del)
+                ref.pop(k, None)          # docstring: shorthand for pop -> an absent key is no error
+                good = r[0] == "ok" and r[1] is None
+            elif code == O_GET:
+                d = op[2]
+                dv = None if d is None else unjv(d["v"])
+                r = implutil.guarded((lambda: e.get(k)) if d is None else (lambda: e.get(k, dv)))
+                good = r[0] == "ok" and ((r[1] is ref[k]) if k in ref else same_value(r[1], dv))
+            elif code == O_IN:
+                r = implutil.guarded(lambda: k in e)
+                good = r[0] == "ok" and r[1] is (k in ref)
+            else:
+                r = implutil.guarded(lambda: e[k])
+                if k in ref:
+                    good = r[0] == "ok" and same_value(r[1], log.content(ref[k])[1])
+                else:
+                    good = r[0] == "exc" and r[2] == "KeyError"
+            if not good:
+                ok, detail = fail(n, step, "entry %d: the call gave %r, the mapping disagrees (it holds %r)" % (
+                    t, r[-1], [log.content(w)[:2] for w in ref.values()]))
+                break
+        # ---- after every step: every entry against its own dict, and every Field object ever seen against its content
+        for j, e in enumerate(entries):
+            msg = entry_vs_dict(e, refs[j], log, heads[j][0], heads[j][1], Field, absent)
+            if msg:
+                who = "entry %d" % j if j == acted else "entry %d (no operation was applied to it in this step)" % j
+                ok, detail = fail(n, step, who + ": " + msg)
+                break
+        if ok:
+            msg = log.altered()
+            if msg:
+                ok, detail = fail(n, step, msg)
+        if not ok:
+            break
+    if shared_hit:
+        tags.append("multi:shared-key-written-or-removed")
+    return {"sx_in": None, "sx_out": None, "oracle": {"ok": ok, "detail": detail}, "nontrivial": bool(shared_hit),
+            "key": json.dumps(inp, sort_keys=True), "tags": tags,
+            "summary": repr([[(f.key, f.value) for f in e.fields] for e in entries])[:200]}
 
 
 # ------------------------------------------------------------------ implementation + oracle: equality
@@ -642,6 +937,8 @@ def impl_eq(case):
 def impl(case):
     if "eq" in case["input"]:
         return impl_eq(case)
+    if "multi" in case["input"]:
+        return impl_multi(case)
     return impl_ops(case)
 
 
